@@ -102,12 +102,13 @@ def cop(op):
     elif o == 'delete':
         body = '(ODelete %s %s %s %s %s %s)' % (t, citem(op.get('key')), cond, names, vals, cbool(op.get('return_old', False)))
     elif o == 'query':
-        body = '(OQuery %s %s %s %s %s %s %d %s %s)' % (
+        body = '(OQuery %s %s %s %s %s %s %d %s %s %s)' % (
             t, copt(op.get('index'), cstr), copt(op.get('keycond'), cstr), copt(op.get('filter'), cstr), names, vals,
-            op.get('limit') or 0, citem(op.get('esk')), copt(op.get('forward'), cbool))
+            op.get('limit') or 0, citem(op.get('esk')), copt(op.get('forward'), cbool), cstr(op.get('projection') or ''))
     elif o == 'scan':
-        body = '(OScan %s %s %s %s %s %d %s)' % (
-            t, copt(op.get('index'), cstr), copt(op.get('filter'), cstr), names, vals, op.get('limit') or 0, citem(op.get('esk')))
+        body = '(OScan %s %s %s %s %s %d %s %s)' % (
+            t, copt(op.get('index'), cstr), copt(op.get('filter'), cstr), names, vals, op.get('limit') or 0, citem(op.get('esk')),
+            cstr(op.get('projection') or ''))
     elif o == 'batch_write':
         rq = op['requests']
         body = '(OBatchWrite %s)' % clist(['(%s, %s)' % (cstr(k), clist([cwreq(r) for r in rq[k]])) for k in sorted(rq, key=b)])
